@@ -256,7 +256,7 @@ pub fn check_case(c: &Case, acc: &mut Acc) -> CaseResult {
 }
 
 fn run_shard(ctx: &ShardCtx, acc: &mut Acc) {
-    drive(ctx, "sizes", ctx.tier.pick(3_000, 30_000), 500, acc, &|ch, acc| {
+    drive(ctx, "sizes", ctx.tier.pick(20_000, 200_000), 500, acc, &|ch, acc| {
         let c = gen_case(ch);
         acc.sample(|| case_json(&c));
         check_case(&c, acc)
